@@ -130,6 +130,13 @@ def task_routes(t):
                 z = '_s'
                 mux = m.ite(m.var(z), r1, -r1)
                 routes.append(('let-const', m.let({z: True}, mux)))
+                # quantification: exists _s. (f and _s)
+                routes.append(('exist', m.exist([z], m.apply('and', r1, m.var(z)))))
+                # relational product: the top variable of the order replaced by _s (which sits
+                # at the bottom, so the pair is NOT adjacent for n > 1) and renamed back
+                x0 = min(names, key=lambda v_: order[v_])
+                fp = b.verified(U.rename(f, {x0: z}))
+                routes.append(('image-rename', _bdd.image(fp, 1, {z: x0}, set(), m)))
                 # copy from a manager with the reverse order
                 ro = bo.verified(f)
                 routes.append(('copy', _bdd.copy_bdd(ro, other, m)))
@@ -172,7 +179,7 @@ def task_routes(t):
     if si == 0 and focus is None:
         rep.sample(dict(order=sweep.order_str(order), u=U.fmt(mine[len(mine) // 3]),
                         routes=['find_or_add', 'minterms', 'to_expr/add_expr', 'dnf-text',
-                                'shannon-ite', 'let-rename', 'let-const', 'copy', 'pickle',
+                                'shannon-ite', 'let-rename', 'let-const', 'exist', 'image-rename', 'copy', 'pickle',
                                 'json']))
     return rep
 
